@@ -74,6 +74,14 @@ func genBatchModel(r *gen.R) *batchModel {
 		p.Inputs[0].Dims[i] = mon.Dim{Value: int64(e)}
 	}
 	p.Inputs[0].Dims[axis] = mon.Dim{Param: "N"}
+	if r.Chance(0.35) {
+		// the batch axis - and, for sequences, the time axis - declared open without a name
+		// (dim {}): unnamed open axes are independent of one another
+		p.Inputs[0].Dims[axis] = mon.Dim{Unset: true}
+		if fam == 2 {
+			p.Inputs[0].Dims[0] = mon.Dim{Unset: true}
+		}
+	}
 	p.BatchAxis[cur] = axis
 	last := func() string { n := p.Nodes[len(p.Nodes)-1]; return n.G.Outputs[0] }
 	add := func(n progNode, newAxis int) bool {
